@@ -1704,4 +1704,59 @@ Section Defs.
       + exfalso. destruct (Hall (RErr e)) as [m Hm]; [|discriminate].
         rewrite E. apply in_or_app. right. now left.
   Qed.
+
+  (** * the reader never hits `panic(protocolbug)` *)
+  Lemma rstep_some s r f rest0 acts r' :
+    p_b s = BRead r -> p_s2c s = f :: rest0 ->
+    reader_step (g_r2ps g) (g_ver g) (hd_error (q_wr (p_q s))) r f = (r', acts) ->
+    existsb is_bad acts = false -> exists s', pstep g s LRStep = Some s'.
+  Proof. intros Eb Es Er Hb. cbn [pstep]. rewrite Eb, Es, Er, Hb. eauto. Qed.
+
+  Lemma reply_acts_ok st3 preA tk preB m c st st2 next :
+    lands next st c st2 tk -> forallb inert preA = true -> forallb inert preB = true ->
+    existsb is_bad (snd (rd_store st3 (preA ++ tk ++ preB) m)) = false.
+  Proof.
+    intros Hl HA HB. rewrite rd_store_acts. cbn [snd].
+    apply existsb_app_false; [apply existsb_app_false; [now apply inert_not_bad|apply existsb_app_false; [|now apply inert_not_bad]]|].
+    - destruct Hl; reflexivity.
+    - destruct (r_resps st3), (Nat.eqb (S (r_ff st3)) (List.length (r_multi st3))); reflexivity.
+  Qed.
+
+  Theorem rstep_enabled s r : InvB s -> p_b s = BRead r -> p_s2c s <> [] -> exists s', pstep g s LRStep = Some s'.
+  Proof.
+    intros I Eb Hne.
+    destruct (p_s2c s) as [|f rest0] eqn:Es; [contradiction|].
+    destruct (b_cur s I r Eb) as (F&K1&K2&K3).
+    destruct (b_coh s I r Eb) as (conf&rest&csd&csr&E1&E2&E3&E4&E5&E6).
+    rewrite Es in E1.
+    destruct conf as [|f' conf'].
+    - cbn in E1, E2. subst rest.
+      apply served_inv in E4 as [[P1 P2]|(c&csd'&tl&fs'&X1&X2&X3&X4)].
+      + destruct (reader_step_free (g_r2ps g) (g_ver g) (hd_error (q_wr (p_q s))) r f P1 F ltac:(lia)) as (pa&Er&Hpa).
+        eapply rstep_some; eauto. now apply apush_not_bad.
+      + subst csd. cbn [app] in E5.
+        destruct (reply_lands s r c (csd' ++ csr) I Eb E5) as (st2&tk&Hl&_).
+        destruct (kind_of_cmd c) as [Ku Kn Kw Kp Kr|Ku Kn Kw Kc Ka Kl Kr|Ku Kw Kp Ki Kq Kr].
+        * rewrite Kw in X2. cbn in X2. inversion X2; subst f tl.
+          destruct (reader_step_normal (g_r2ps g) (g_ver g) Hver _ r _ c st2 tk F Kp Kn Ku Hl) as (pre&Er&Hpre).
+          destruct (rd_store st2 (tk ++ pre) (sv_reply sv c)) as [r' acts] eqn:Est.
+          eapply rstep_some; eauto.
+          pose proof (reply_acts_ok st2 [] tk pre (sv_reply sv c) c r st2 _ Hl eq_refl Hpre) as K. cbn [app] in K. rewrite Est in K. exact K.
+        * rewrite Kw in X2. cbn in X2.
+          assert (Hf : sub_confirm r2ps f = true).
+          { rewrite X2 in Kc. cbn in Kc. apply andb_true_iff in Kc. apply Kc. }
+          destruct (reader_step_sub (g_r2ps g) (g_ver g) _ r f c st2 tk F ltac:(lia) Hf Kn Hl) as (pre1&pre2&Er&Hp1&Hp2).
+          destruct (rd_store (set_skip st2 (Z.of_nat (c_argc c) - 2)) (pre1 ++ tk ++ pre2) empty_msg) as [r' acts] eqn:Est.
+          eapply rstep_some; eauto.
+          pose proof (reply_acts_ok (set_skip st2 (Z.of_nat (c_argc c) - 2)) pre1 tk pre2 empty_msg c r st2 _ Hl Hp1 Hp2) as K. rewrite Est in K. exact K.
+        * rewrite Kw in X2. cbn in X2. inversion X2; subst f tl.
+          destruct (reader_step_pong (g_r2ps g) (g_ver g) Hver _ r _ c st2 tk F Kp Ku Ki Kq Hl) as (pre&Er&Hpre).
+          destruct (rd_store st2 (tk ++ pre) (snd (is_unsub_reply (sv_pong sv c)))) as [r' acts] eqn:Est.
+          eapply rstep_some; eauto.
+          pose proof (reply_acts_ok st2 [] tk pre (snd (is_unsub_reply (sv_pong sv c))) c r st2 _ Hl eq_refl Hpre) as K. cbn [app] in K. rewrite Est in K. exact K.
+    - cbn [app] in E1. inversion E1; subst f' rest0. cbn [forallb] in E3. apply andb_true_iff in E3 as [Hf Htl].
+      cbn [List.length] in E2.
+      destruct (reader_step_conf (g_r2ps g) (g_ver g) (hd_error (q_wr (p_q s))) r f Hf F ltac:(lia)) as (pa&Er&Hpa).
+      eapply rstep_some; eauto. now apply apush_not_bad.
+  Qed.
 End Defs.
